@@ -1,4 +1,5 @@
 import Pyunicorn.Lemmas.Window
+import Pyunicorn.Generated.ArithC13
 /-!
 # C13 — Data windows select exactly the requested samples; anomalies sum
 
@@ -8,6 +9,7 @@ and the `_mut_window`-keyed memoisation.  The model is tied to the Python
 classes by the history-level correspondence in `harness/c13.py`.
 -/
 namespace Pyunicorn.Window
+open Pyunicorn.Generated
 
 /-! ## 1. The window exposes exactly the samples inside the closed window -/
 
@@ -407,6 +409,8 @@ structure Obj.Inv (o : Obj) : Prop where
   for the current window; no entry is keyed by a future counter -/
   pm : ∀ e ∈ o.pmCache, e.1 ≤ o.ver ∧ (e.1 = o.ver → e.2 = o.phaseMeanFresh)
   an : ∀ e ∈ o.anCache, e.1 ≤ o.ver ∧ (e.1 = o.ver → e.2 = o.anomalyFresh)
+  /-- the current view is the selection of the last accepted window (ghost field `win`) -/
+  isWin : applyWindow o.full o.win = some o.cur
 
 /-- a freshly constructed object satisfies the invariant -/
 theorem init_inv (full : View) (c : Nat) (a : Bool) (w : Option Win) (o : Obj)
@@ -418,7 +422,7 @@ theorem init_inv (full : View) (c : Nat) (a : Bool) (w : Option Win) (o : Obj)
     have := Option.some.inj h
     subst this
     obtain ⟨ht, hla, _, _, hT, hN⟩ := applyWindow_some full _ v hv
-    refine ⟨⟨hwf, ?_, ?_, window_shapes_agree full _ v hwf hv, by simp, by simp⟩, rfl⟩
+    refine ⟨⟨hwf, ?_, ?_, window_shapes_agree full _ v hwf hv, by simp, by simp, hv⟩, rfl⟩
     · intro hf; apply hT; rw [ht, hf, select_nil_right]
     · intro hf; apply hN; rw [hla, hf, select_nil_right]
 
@@ -435,7 +439,7 @@ theorem setWindow_inv (o : Obj) (w : Win) (hi : o.Inv) : (o.setWindow w).2.Inv :
   split
   · exact hi
   · rename_i v hv
-    refine ⟨hi.fullWF, hi.fullT, hi.fullN, window_shapes_agree _ _ _ hi.fullWF hv, ?_, ?_⟩
+    refine ⟨hi.fullWF, hi.fullT, hi.fullN, window_shapes_agree _ _ _ hi.fullWF hv, ?_, ?_, hv⟩
     · intro e he
       have := (hi.pm e he).1
       exact ⟨by simp only; omega, by simp only; omega⟩
@@ -459,7 +463,7 @@ theorem setGlobal_inv (o : Obj) (hi : o.Inv) : o.setGlobal.2.Inv := by
   · rename_i o' heq
     have e : (o.setWindow globalWin).2 = o' := by rw [heq]
     rw [e] at h1
-    refine ⟨h1.fullWF, h1.fullT, h1.fullN, h1.curWF, ?_, ?_⟩
+    refine ⟨h1.fullWF, h1.fullT, h1.fullN, h1.curWF, ?_, ?_, h1.isWin⟩
     · intro x hx
       have := (h1.pm x hx).1
       exact ⟨by simp only; omega, by simp only; omega⟩
@@ -467,35 +471,65 @@ theorem setGlobal_inv (o : Obj) (hi : o.Inv) : o.setGlobal.2.Inv := by
       have := (h1.an x hx).1
       exact ⟨by simp only; omega, by simp only; omega⟩
 
+theorem phaseMeanQ_inv (o : Obj) (hi : o.Inv) : o.phaseMeanQ.2.Inv := by
+  simp only [Obj.phaseMeanQ]
+  split
+  · exact hi
+  · refine ⟨hi.fullWF, hi.fullT, hi.fullN, hi.curWF, ?_, hi.an, hi.isWin⟩
+    intro e he
+    simp only [List.mem_cons] at he
+    rcases he with rfl | he
+    · exact ⟨Nat.le_refl _, fun _ => rfl⟩
+    · exact hi.pm e he
+
+theorem anomalyQ_inv (o : Obj) (hi : o.Inv) : o.anomalyQ.2.Inv := by
+  simp only [Obj.anomalyQ]
+  split
+  · exact hi
+  · refine ⟨hi.fullWF, hi.fullT, hi.fullN, hi.curWF, hi.pm, ?_, hi.isWin⟩
+    intro e he
+    simp only [List.mem_cons] at he
+    rcases he with rfl | he
+    · exact ⟨Nat.le_refl _, fun _ => rfl⟩
+    · exact hi.an e he
+
+/-- `set_window(window())` is a `set_window` (or nothing) -/
+theorem setWindowCurrent_cases (o : Obj) :
+    o.setWindowCurrent = (true, o) ∨ ∃ w, o.setWindowCurrent = o.setWindow w := by
+  unfold Obj.setWindowCurrent
+  split
+  · exact Or.inr ⟨_, rfl⟩
+  · exact Or.inl rfl
+
+/-- `anomaly_selected_months` changes the object at most by memoising `anomaly()` -/
+theorem anomalySelectedMonths_state (o : Obj) (months : List Int) :
+    (o.anomalySelectedMonths months).2 = o ∨ (o.anomalySelectedMonths months).2 = o.anomalyQ.2 := by
+  unfold Obj.anomalySelectedMonths
+  split
+  · exact Or.inr rfl
+  all_goals exact Or.inl rfl
+
 theorem step_inv (o : Obj) (op : Op) (hi : o.Inv) : (o.step op).Inv := by
   cases op with
   | setWindow w => exact setWindow_inv o w hi
   | setGlobal => exact setGlobal_inv o hi
-  | qPhaseMean =>
-    simp only [Obj.step, Obj.phaseMeanQ]
-    split
-    · exact hi
-    · refine ⟨hi.fullWF, hi.fullT, hi.fullN, hi.curWF, ?_, hi.an⟩
-      intro e he
-      simp only [List.mem_cons] at he
-      rcases he with rfl | he
-      · exact ⟨Nat.le_refl _, fun _ => rfl⟩
-      · exact hi.pm e he
-  | qAnomaly =>
-    simp only [Obj.step, Obj.anomalyQ]
-    split
-    · exact hi
-    · refine ⟨hi.fullWF, hi.fullT, hi.fullN, hi.curWF, hi.pm, ?_⟩
-      intro e he
-      simp only [List.mem_cons] at he
-      rcases he with rfl | he
-      · exact ⟨Nat.le_refl _, fun _ => rfl⟩
-      · exact hi.an e he
+  | qPhaseMean => exact phaseMeanQ_inv o hi
+  | qAnomaly => exact anomalyQ_inv o hi
   | evict keep =>
     simp only [Obj.step, Obj.evict]
-    refine ⟨hi.fullWF, hi.fullT, hi.fullN, hi.curWF, ?_, ?_⟩
+    refine ⟨hi.fullWF, hi.fullT, hi.fullN, hi.curWF, ?_, ?_, hi.isWin⟩
     · intro e he; exact hi.pm e (List.mem_filter.mp he).1
     · intro e he; exact hi.an e (List.mem_filter.mp he).1
+  | setWindowCurrent =>
+    simp only [Obj.step]
+    rcases setWindowCurrent_cases o with h | ⟨w, h⟩
+    · rw [h]; exact hi
+    · rw [h]; exact setWindow_inv o w hi
+  | qSelectedMonths months =>
+    simp only [Obj.step]
+    rcases anomalySelectedMonths_state o months with h | h
+    · rw [h]; exact hi
+    · rw [h]; exact anomalyQ_inv o hi
 
 theorem step_fields (o : Obj) (op : Op) :
     (o.step op).full = o.full ∧ (o.step op).cycle = o.cycle ∧ (o.step op).anom = o.anom := by
@@ -514,6 +548,16 @@ theorem step_fields (o : Obj) (op : Op) :
   | qPhaseMean => simp only [Obj.step, Obj.phaseMeanQ]; split <;> simp
   | qAnomaly => simp only [Obj.step, Obj.anomalyQ]; split <;> simp
   | evict keep => simp [Obj.step, Obj.evict]
+  | setWindowCurrent =>
+    simp only [Obj.step]
+    rcases setWindowCurrent_cases o with h | ⟨w, h⟩
+    · rw [h]; exact ⟨rfl, rfl, rfl⟩
+    · rw [h]; exact setWindow_fields o w
+  | qSelectedMonths months =>
+    simp only [Obj.step]
+    rcases anomalySelectedMonths_state o months with h | h
+    · rw [h]; exact ⟨rfl, rfl, rfl⟩
+    · rw [h]; simp only [Obj.anomalyQ]; split <;> simp
 
 /-- the invariant holds after **every history** -/
 theorem run_inv (o : Obj) (ops : List Op) (hi : o.Inv) : (o.run ops).Inv := by
@@ -577,6 +621,7 @@ theorem shapes_agree (o : Obj) (ops : List Op) (hi : o.Inv) :
   rw [hq.1, hq.2]
   have hs := anomaly_shape o'.cycle N o'.cur.obs h.curWF.cols
   have hp := phaseMean_shape o'.cycle N o'.cur.obs h.curWF.cols
+  rw [← phaseMeanLoop_eq] at hp
   refine ⟨h.curWF.rows, h.curWF.cols, h.curWF.latlon.symm, ?_, ?_, hp.1, hp.2⟩
   · unfold Obj.anomalyFresh
     split
@@ -595,6 +640,563 @@ theorem anomaly_of_anomalies (o : Obj) (ops : List Op) (hi : o.Inv) (ha : o.anom
   rw [(run_fields o ops).2.2, ha]
   rfl
 
+
+/-! ## 9. The loops as written equal the closed forms used above -/
+
+/-- `phase_mean()`: the loop `phase_mean[i, :] = observable[i::c, :].mean(axis=0)` over
+`np.zeros((c, N))` leaves no zero row behind: it is the list of the phase means -/
+theorem phaseMean_loop_closed (c n : Nat) (obs : Mat) :
+    phaseMeanLoop c n obs = phaseMean c n obs := phaseMeanLoop_eq c n obs
+
+/-- `phase_indices()`: for every positive cycle length every row assignment
+`phase_indices[i, :] = np.arange(i, range_years * c, c)` has exactly `range_years`
+entries (no broadcasting `ValueError`), and the loop computes the closed form;
+`time_cycle = 0` raises `ZeroDivisionError` -/
+theorem phaseIndices_loop_closed (c T : Nat) :
+    (0 < c → ∃ pi, phaseIndices c T = some pi ∧ phaseIndicesLoop c T = .ok pi)
+    ∧ (c = 0 → phaseIndicesLoop c T = .zeroDivision) := by
+  refine ⟨fun hc => ⟨_, ?_, phaseIndicesLoop_eq c T hc⟩, fun h => by simp [phaseIndicesLoop, h]⟩
+  simp [phaseIndices, Nat.ne_of_gt hc]
+
+/-- every `np.arange(i, range_years * c, c)` of the loop has `range_years` entries -/
+theorem arange_row_length (c T i : Nat) (hi : i < c) :
+    (arange i (T / c * c) c).length = T / c := by
+  rw [arange_phase c (T / c) i hi]; simp
+
+/-! ## 10. Selected phases / months, including negative (wrapping) numbers -/
+
+theorem mem_wrap_iff (c : Nat) (hc : 0 < c) (sel : List Int) (r : Nat) :
+    r ∈ sel.map (fun p => (p % (c : Int)).toNat) ↔ (r : Int) ∈ sel.map (· % (c : Int)) := by
+  simp only [List.mem_map]
+  constructor
+  · rintro ⟨p, hp, rfl⟩
+    refine ⟨p, hp, ?_⟩
+    have := Int.emod_nonneg p (by omega : (c : Int) ≠ 0)
+    omega
+  · rintro ⟨p, hp, h⟩
+    exact ⟨p, hp, by omega⟩
+
+/-- **`indices_selected_phases` for arbitrary integer phase numbers in `[-c, c)`**
+(negative numbers count from the end of the cycle): the call succeeds; the result is
+sorted, has one entry per selected phase and complete year, and contains exactly the
+time indices of the complete years whose phase `t % c` is one of the selected phases
+(mod `c`); all of them address existing samples. -/
+theorem selected_phases_spec (c T : Nat) (hc : 0 < c) (sel : List Int)
+    (hs : ∀ p ∈ sel, -(c : Int) ≤ p ∧ p < (c : Int)) :
+    ∃ idx, indicesSelectedPhasesI c T sel = .ok idx
+      ∧ idx.Pairwise (· ≤ ·)
+      ∧ idx.length = sel.length * (T / c)
+      ∧ (∀ t, t ∈ idx ↔ t < (T / c) * c ∧ ((t % c : Nat) : Int) ∈ sel.map (· % (c : Int)))
+      ∧ ∀ t ∈ idx, t < T := by
+  have hw : ∀ q ∈ sel.map (fun p => (p % (c : Int)).toNat), q < c := by
+    intro q hq
+    obtain ⟨p, _, rfl⟩ := List.mem_map.mp hq
+    exact toNat_emod_lt c hc p
+  obtain ⟨idx, hidx, hsorted, _, hlt⟩ := selected_indices_spec c T hc _ hw
+  refine ⟨idx, (selectedI_valid c T hc sel hs).trans hidx, hsorted, ?_, ?_, hlt⟩
+  · have := selected_length c T hc _ hw idx hidx
+    simpa using this
+  · intro t
+    rw [mem_selected_iff c T hc _ hw idx hidx t, mem_wrap_iff c hc]
+
+/-- the error branch: `IndexError` iff some phase number lies outside `[-c, c)` -/
+theorem selected_phases_error_iff (c T : Nat) (hc : 0 < c) (sel : List Int) :
+    indicesSelectedPhasesI c T sel = .indexError
+      ↔ ∃ p ∈ sel, p < -(c : Int) ∨ (c : Int) ≤ p := by
+  constructor
+  · intro h
+    apply Classical.byContradiction
+    intro hn
+    have hs : ∀ p ∈ sel, -(c : Int) ≤ p ∧ p < (c : Int) := by
+      intro p hp
+      constructor
+      · apply Classical.byContradiction; intro h1; exact hn ⟨p, hp, Or.inl (by omega)⟩
+      · apply Classical.byContradiction; intro h1; exact hn ⟨p, hp, Or.inr (by omega)⟩
+    obtain ⟨idx, hidx, _⟩ := selected_phases_spec c T hc sel hs
+    rw [hidx] at h
+    exact absurd h (by simp)
+  · exact selectedI_invalid c T hc sel
+
+theorem monthDays_length (months : List Int) : (monthDays months).length = months.length * 30 := by
+  rw [monthDays_eq]
+  induction months with
+  | nil => simp
+  | cons m ms ih => simp only [List.flatMap_cons, List.length_append, ih]; simp; omega
+
+/-- **`indices_selected_months`, monthly data (`time_cycle = 12`)**: for month numbers in
+`[-12, 12)` the sorted indices of the complete years whose month `t % 12` is selected -/
+theorem selected_months_12 (T : Nat) (months : List Int)
+    (hm : ∀ m ∈ months, (-12 : Int) ≤ m ∧ m < 12) :
+    ∃ idx, indicesSelectedMonthsI 12 T months = .ok idx
+      ∧ idx.Pairwise (· ≤ ·)
+      ∧ idx.length = months.length * (T / 12)
+      ∧ (∀ t, t ∈ idx ↔ t < (T / 12) * 12 ∧ ((t % 12 : Nat) : Int) ∈ months.map (· % 12))
+      ∧ ∀ t ∈ idx, t < T := by
+  have := selected_phases_spec 12 T (by omega) months (by simpa using hm)
+  simpa [indicesSelectedMonthsI] using this
+
+/-- **`indices_selected_months`, standardised daily data (`time_cycle = 360`)**: the
+month → day expansion `month * 30 + day`, `day ∈ range(30)`, selects exactly the time
+indices of the complete years whose month `(t % 360) / 30` is selected (month numbers
+in `[-12, 12)`, negative ones counting from December); sorted, 30 days per month and
+year, all addressing existing samples -/
+theorem selected_months_360 (T : Nat) (months : List Int)
+    (hm : ∀ m ∈ months, (-12 : Int) ≤ m ∧ m < 12) :
+    ∃ idx, indicesSelectedMonthsI 360 T months = .ok idx
+      ∧ idx.Pairwise (· ≤ ·)
+      ∧ idx.length = months.length * 30 * (T / 360)
+      ∧ (∀ t, t ∈ idx ↔ t < (T / 360) * 360
+            ∧ ((t % 360 / 30 : Nat) : Int) ∈ months.map (· % 12))
+      ∧ ∀ t ∈ idx, t < T := by
+  have hd : ∀ p ∈ monthDays months, -((360 : Nat) : Int) ≤ p ∧ p < ((360 : Nat) : Int) := by
+    intro p hp
+    obtain ⟨m, hmm, d, hd, rfl⟩ := (mem_monthDays months p).mp hp
+    have := hm m hmm
+    omega
+  obtain ⟨idx, hidx, hs, hl, hmem, hlt⟩ := selected_phases_spec 360 T (by omega) _ hd
+  refine ⟨idx, by simpa [indicesSelectedMonthsI] using hidx, hs,
+    by rw [hl, monthDays_length], ?_, hlt⟩
+  intro t
+  rw [hmem t]
+  apply and_congr_right
+  intro _
+  simp only [List.mem_map]
+  constructor
+  · rintro ⟨p, hp, h⟩
+    obtain ⟨m, hmm, d, hd, rfl⟩ := (mem_monthDays months p).mp hp
+    have := hm m hmm
+    exact ⟨m, hmm, by omega⟩
+  · rintro ⟨m, hmm, h⟩
+    have := hm m hmm
+    refine ⟨m * 30 + ((t % 360 % 30 : Nat) : Int), (mem_monthDays months _).mpr
+      ⟨m, hmm, t % 360 % 30, Nat.mod_lt _ (by omega), rfl⟩, by omega⟩
+
+/-- an out-of-range month is an `IndexError` (both supported cycle lengths); any other
+cycle length is `NotImplementedError` -/
+theorem selected_months_errors (c T : Nat) (months : List Int) :
+    (c ≠ 12 → c ≠ 360 → indicesSelectedMonthsI c T months = .notImplemented)
+    ∧ ((c = 12 ∨ c = 360) → (∃ m ∈ months, m < -12 ∨ 12 ≤ m) →
+        indicesSelectedMonthsI c T months = .indexError) := by
+  refine ⟨fun h1 h2 => by simp [indicesSelectedMonthsI, h1, h2], ?_⟩
+  rintro (rfl | rfl) ⟨m, hmm, hbad⟩
+  · simp only [indicesSelectedMonthsI, if_true]
+    exact (selected_phases_error_iff 12 T (by omega) months).mpr ⟨m, hmm, by omega⟩
+  · have : indicesSelectedMonthsI 360 T months = indicesSelectedPhasesI 360 T (monthDays months) := by
+      simp [indicesSelectedMonthsI]
+    rw [this]
+    refine (selected_phases_error_iff 360 T (by omega) _).mpr
+      ⟨m * 30 + ((0 : Nat) : Int), (mem_monthDays months _).mpr ⟨m, hmm, 0, by omega, rfl⟩, by omega⟩
+
+theorem range_map_getD {α : Type} (l : List α) (d : α) :
+    (List.range l.length).map (l.getD · d) = l := by
+  apply List.ext_getElem
+  · simp
+  · intro i h1 h2
+    simp [List.getD, List.getElem?_eq_getElem h2]
+
+/-! ## 11. `shuffled_anomaly()` -/
+
+/-- `shuffled_anomaly()` has the shape of `anomaly()` -/
+theorem shuffled_anomaly_shape (A : Mat) (n : Nat) (perms : List (List Nat)) :
+    (shuffledAnomaly A n perms).length = A.length
+      ∧ ∀ r ∈ shuffledAnomaly A n perms, r.length = n := by
+  refine ⟨by simp [shuffledAnomaly], ?_⟩
+  intro r hr
+  simp only [shuffledAnomaly, List.mem_map] at hr
+  obtain ⟨k, _, rfl⟩ := hr
+  simp
+
+/-- every column of `shuffled_anomaly()` is a rearrangement of the same column of
+`anomaly()` (for whatever permutation `random.shuffle` applied to it) -/
+theorem shuffled_anomaly_column_perm (A : Mat) (n : Nat) (perms : List (List Nat)) (j : Nat)
+    (hj : j < n) (hp : (perms.getD j []).Perm (List.range A.length)) :
+    ((shuffledAnomaly A n perms).map (·.getD j 0)).Perm (A.map (·.getD j 0)) := by
+  have hlen : (perms.getD j []).length = A.length := by simpa using hp.length_eq
+  have e1 : (shuffledAnomaly A n perms).map (·.getD j 0)
+      = (perms.getD j []).map (fun t => (A.getD t []).getD j 0) := by
+    simp only [shuffledAnomaly, List.map_map]
+    conv => rhs; rw [← range_map_getD (perms.getD j []) 0, hlen]
+    rw [List.map_map]
+    apply List.map_congr_left
+    intro k _
+    simp [List.getD, List.getElem?_range hj]
+  have e2 : A.map (·.getD j 0) = (List.range A.length).map (fun t => (A.getD t []).getD j 0) := by
+    conv => lhs; rw [← range_map_getD A []]
+    rw [List.map_map]; rfl
+  rw [e1, e2]
+  exact hp.map _
+
+/-! ## 12. The view is always the selection of the last accepted window -/
+
+/-- after **every history** the exposed view is the selection, from the full data, of
+the window that was accepted last (ghost field `win`) -/
+theorem view_is_last_accepted_window (o : Obj) (ops : List Op) (hi : o.Inv) :
+    applyWindow o.full (o.run ops).win = some (o.run ops).cur := by
+  have := (run_inv o ops hi).isWin
+  rwa [(run_fields o ops).1] at this
+
+/-- `win` is the window of the last accepted `set_window` -/
+theorem accepted_window_recorded (o : Obj) (w : Win) (h : (o.setWindow w).1 = false) :
+    (o.setWindow w).2.win = w ∧ applyWindow o.full w = some (o.setWindow w).2.cur := by
+  unfold Obj.setWindow at h ⊢
+  split
+  · rename_i hv; simp [hv] at h
+  · rename_i v hv; exact ⟨rfl, hv⟩
+
+/-- queries and evictions never change the view or the recorded window -/
+theorem queries_keep_view (o : Obj) :
+    (o.phaseMeanQ.2.cur = o.cur ∧ o.phaseMeanQ.2.win = o.win)
+    ∧ (o.anomalyQ.2.cur = o.cur ∧ o.anomalyQ.2.win = o.win)
+    ∧ (∀ keep, (o.evict keep).cur = o.cur ∧ (o.evict keep).win = o.win)
+    ∧ (∀ months, (o.anomalySelectedMonths months).2.cur = o.cur
+        ∧ (o.anomalySelectedMonths months).2.win = o.win) := by
+  have ha : o.anomalyQ.2.cur = o.cur ∧ o.anomalyQ.2.win = o.win := by
+    simp only [Obj.anomalyQ]; split <;> simp
+  refine ⟨?_, ha, fun _ => ⟨rfl, rfl⟩, ?_⟩
+  · simp only [Obj.phaseMeanQ]; split <;> simp
+  · intro months
+    rcases anomalySelectedMonths_state o months with h | h
+    · rw [h]; exact ⟨rfl, rfl⟩
+    · rw [h]; exact ha
+
+/-! ## 13. Feeding `window()` back into `set_window` -/
+
+theorem applyWindow_congr (full : View) (w w' : Win)
+    (ht : timeMask w' full.time = timeMask w full.time)
+    (hs : spaceMask w' full.lat full.lon = spaceMask w full.lat full.lon) :
+    applyWindow full w' = applyWindow full w := by
+  unfold applyWindow; rw [ht, hs]
+
+/-- **`set_window(window())` re-selects the same samples**: if `window()` of a windowed
+view reports distinct bounds, the reported bounding box, used as a window on the full
+data, selects exactly the time stamps (resp. nodes) of the view again. -/
+theorem reapply_own_window (full : View) (w : Win) (v : View) (hwf : full.WF)
+    (h : applyWindow full w = some v) (t0 t1 la0 la1 lo0 lo1 : Rat)
+    (hb : boundaries v = some [t0, t1, la0, la1, lo0, lo1]) :
+    (t0 ≠ t1 → timeMask ⟨t0, t1, la0, la1, lo0, lo1⟩ full.time = timeMask w full.time)
+    ∧ (la0 ≠ la1 → lo0 ≠ lo1 →
+        spaceMask ⟨t0, t1, la0, la1, lo0, lo1⟩ full.lat full.lon = spaceMask w full.lat full.lon)
+    ∧ (t0 ≠ t1 → la0 ≠ la1 → lo0 ≠ lo1 →
+        applyWindow full ⟨t0, t1, la0, la1, lo0, lo1⟩ = some v) := by
+  obtain ⟨a, b, c, d, e, f, hbe, ⟨ma, la⟩, ⟨mb, lb⟩, ⟨mc, lc⟩, ⟨md, ld⟩, ⟨me, le⟩, ⟨mf, lf⟩⟩ :=
+    window_is_bounding_box v _ hb
+  simp only [List.cons.injEq, and_true] at hbe
+  obtain ⟨rfl, rfl, rfl, rfl, rfl, rfl⟩ := hbe
+  obtain ⟨hvt, hvn, _⟩ := window_selects_exactly full w v hwf h
+  have hvwf := window_shapes_agree full w v hwf h
+  have hT : t0 ≠ t1 → timeMask ⟨t0, t1, la0, la1, lo0, lo1⟩ full.time = timeMask w full.time := by
+    intro hne
+    rw [timeMask_eq, timeMask_eq]
+    apply List.map_congr_left
+    intro t ht
+    rw [hvt] at ma mb la lb
+    have ka := (List.mem_filter.mp ma).2
+    have kb := (List.mem_filter.mp mb).2
+    have e : timeIn ⟨t0, t1, la0, la1, lo0, lo1⟩ t = inRange t0 t1 t := by
+      simp [timeIn, hne]
+    rw [e]
+    by_cases hin : timeIn w t = true
+    · have := la t (List.mem_filter.mpr ⟨ht, hin⟩)
+      have := lb t (List.mem_filter.mpr ⟨ht, hin⟩)
+      rw [hin, inRange_iff]
+      exact ⟨‹t0 ≤ t›, ‹t ≤ t1›⟩
+    · have hin' : timeIn w t = false := by simpa using hin
+      rw [hin']
+      simp only [timeIn] at hin' ka kb
+      simp only [Bool.or_eq_false_iff, decide_eq_false_iff_not] at hin'
+      simp only [hin'.1, decide_false, Bool.false_or, inRange_iff] at ka kb
+      have hnot : ¬ (w.tmin ≤ t ∧ t ≤ w.tmax) := by
+        have := hin'.2; simpa [inRange] using this
+      apply Bool.eq_false_iff.mpr
+      intro hc
+      rw [inRange_iff] at hc
+      exact hnot ⟨Rat.le_trans ka.1 hc.1, Rat.le_trans hc.2 kb.2⟩
+  have hS : la0 ≠ la1 → lo0 ≠ lo1 →
+      spaceMask ⟨t0, t1, la0, la1, lo0, lo1⟩ full.lat full.lon = spaceMask w full.lat full.lon := by
+    intro h1 h2
+    rw [spaceMask_eq _ _ _ hwf.latlon, spaceMask_eq _ _ _ hwf.latlon]
+    apply List.map_congr_left
+    intro p hp
+    -- extreme coordinates are attained by selected nodes
+    have hmemL : ∀ x ∈ v.lat, ∃ y, (x, y) ∈ v.lat.zip v.lon := by
+      intro x hx
+      obtain ⟨i, hi, rfl⟩ := List.getElem_of_mem hx
+      have hi' : i < v.lon.length := by rw [← hvwf.latlon]; exact hi
+      exact ⟨v.lon[i], by
+        rw [List.mem_iff_getElem]
+        exact ⟨i, by rw [List.length_zip]; exact Nat.lt_min.mpr ⟨hi, hi'⟩, by simp⟩⟩
+    have hmemR : ∀ y ∈ v.lon, ∃ x, (x, y) ∈ v.lat.zip v.lon := by
+      intro y hy
+      obtain ⟨i, hi, rfl⟩ := List.getElem_of_mem hy
+      have hi' : i < v.lat.length := by rw [hvwf.latlon]; exact hi
+      exact ⟨v.lat[i], by
+        rw [List.mem_iff_getElem]
+        exact ⟨i, by rw [List.length_zip]; exact Nat.lt_min.mpr ⟨hi', hi⟩, by simp⟩⟩
+    have e : nodeIn ⟨t0, t1, la0, la1, lo0, lo1⟩ p
+        = inBox ⟨t0, t1, la0, la1, lo0, lo1⟩ p.1 p.2 := by
+      simp [nodeIn, h1, h2]
+    rw [e]
+    by_cases hin : nodeIn w p = true
+    · have hpv : p ∈ v.lat.zip v.lon := by rw [hvn]; exact List.mem_filter.mpr ⟨hp, hin⟩
+      have h1' := List.of_mem_zip hpv
+      rw [hin, inBox_iff]
+      exact ⟨⟨lc _ h1'.1, ld _ h1'.1⟩, ⟨le _ h1'.2, lf _ h1'.2⟩⟩
+    · have hin' : nodeIn w p = false := by simpa using hin
+      rw [hin']
+      apply Bool.eq_false_iff.mpr
+      intro hc
+      rw [inBox_iff] at hc
+      simp only [nodeIn, Bool.or_eq_false_iff, decide_eq_false_iff_not] at hin'
+      obtain ⟨y0, hy0⟩ := hmemL _ mc
+      obtain ⟨y1, hy1⟩ := hmemL _ md
+      obtain ⟨x0, hx0⟩ := hmemR _ me
+      obtain ⟨x1, hx1⟩ := hmemR _ mf
+      rw [hvn] at hy0 hy1 hx0 hx1
+      have k0 := (List.mem_filter.mp hy0).2
+      have k1 := (List.mem_filter.mp hy1).2
+      have k2 := (List.mem_filter.mp hx0).2
+      have k3 := (List.mem_filter.mp hx1).2
+      simp only [nodeIn, hin'.1, decide_false, Bool.false_or, inBox_iff] at k0 k1 k2 k3
+      have : inBox w p.1 p.2 = true := by
+        rw [inBox_iff]
+        exact ⟨⟨Rat.le_trans k0.1.1 hc.1.1, Rat.le_trans hc.1.2 k1.1.2⟩,
+          ⟨Rat.le_trans k2.2.1 hc.2.1, Rat.le_trans hc.2.2 k3.2.2⟩⟩
+      rw [this] at hin'
+      exact absurd hin'.2 (by simp)
+  refine ⟨hT, hS, fun a b c => ?_⟩
+  rw [applyWindow_congr full w _ (hT a) (hS b c), h]
+
+/-- object level: after every history, `set_window(window())` with distinct reported
+bounds is accepted and leaves the exposed view unchanged -/
+theorem setWindowCurrent_keeps_view (o : Obj) (ops : List Op) (hi : o.Inv)
+    (t0 t1 la0 la1 lo0 lo1 : Rat)
+    (hb : boundaries (o.run ops).cur = some [t0, t1, la0, la1, lo0, lo1])
+    (h1 : t0 ≠ t1) (h2 : la0 ≠ la1) (h3 : lo0 ≠ lo1) :
+    (o.run ops).setWindowCurrent.1 = false
+      ∧ (o.run ops).setWindowCurrent.2.cur = (o.run ops).cur := by
+  have h := run_inv o ops hi
+  generalize o.run ops = o' at h hb
+  have := (reapply_own_window o'.full o'.win o'.cur h.fullWF h.isWin _ _ _ _ _ _ hb).2.2 h1 h2 h3
+  simp only [Obj.setWindowCurrent, hb, Obj.setWindow, this]
+  exact ⟨trivial, trivial⟩
+
+/-! ## 14. Objects built on arrays the library holds -/
+
+/-- `ClimateData(obj.observable(), obj.grid, …)` after any history: the constructor
+succeeds, the new object satisfies the invariant and exposes the same view, which is
+now its *full* data (so all theorems above apply to windows of windows) -/
+theorem nest_inv (o : Obj) (ops : List Op) (hi : o.Inv) :
+    ∃ o', (o.run ops).nest = some o' ∧ o'.Inv ∧ o'.full = (o.run ops).cur
+      ∧ o'.cur = (o.run ops).cur := by
+  have h := run_inv o ops hi
+  generalize o.run ops = o1 at h
+  obtain ⟨_, _, _, _, hT, hN⟩ := applyWindow_some _ _ _ h.isWin
+  have hg := global_window_is_full o1.cur h.curWF hT hN
+  have hinit : Obj.init o1.cur o1.cycle o1.anom none
+      = some ⟨o1.cur, o1.cur, o1.cycle, o1.anom, 1, [], [], globalWin⟩ := by
+    simp [Obj.init, hg]
+  refine ⟨_, hinit, (init_inv _ _ _ _ _ h.curWF hinit).1, rfl, rfl⟩
+
+/-- a window of a window exposes exactly the samples lying in both windows -/
+theorem nested_window_is_intersection (full : View) (w1 w2 : Win) (v1 v2 : View) (hwf : full.WF)
+    (h1 : applyWindow full w1 = some v1) (h2 : applyWindow v1 w2 = some v2) :
+    v2.time = full.time.filter (fun t => timeIn w1 t && timeIn w2 t)
+    ∧ v2.lat.zip v2.lon
+        = (full.lat.zip full.lon).filter (fun p => nodeIn w1 p && nodeIn w2 p) := by
+  have a := window_selects_exactly full w1 v1 hwf h1
+  have b := window_selects_exactly v1 w2 v2 (window_shapes_agree full w1 v1 hwf h1) h2
+  refine ⟨?_, ?_⟩
+  · rw [b.1, a.1, List.filter_filter]
+    apply List.filter_congr; intro x _; exact Bool.and_comm _ _
+  · rw [b.2.1, a.2.1, List.filter_filter]
+    apply List.filter_congr; intro x _; exact Bool.and_comm _ _
+
+/-- **`anomaly_selected_months` after every history** (cycle 12 or 360, month numbers in
+`[-12, 12)`): the index computation succeeds, every index addresses an existing row of
+the (memoised) `anomaly()` of the *current* window — no `IndexError` — and the result
+consists of exactly those rows, each with one entry per node of the current grid. -/
+theorem anomaly_selected_months_spec (o : Obj) (ops : List Op) (hi : o.Inv) (months : List Int)
+    (hc : o.cycle = 12 ∨ o.cycle = 360) (hm : ∀ m ∈ months, (-12 : Int) ≤ m ∧ m < 12) :
+    let o' := o.run ops
+    ∃ idx, indicesSelectedMonthsI o'.cycle o'.cur.time.length months = .ok idx
+      ∧ (∀ t ∈ idx, t < o'.cur.time.length)
+      ∧ (o'.anomalySelectedMonths months).1 = .ok (idx.map fun t => o'.anomalyFresh.getD t [])
+      ∧ (∀ r ∈ idx.map (fun t => o'.anomalyFresh.getD t []), r.length = o'.cur.lat.length) := by
+  intro o'
+  have hcyc : o'.cycle = o.cycle := (run_fields o ops).2.1
+  have hq := (queries_follow_window o ops hi).2
+  have hsh := shapes_agree o ops hi
+  simp only at hsh
+  obtain ⟨_, _, _, hlen, hcols, _, _⟩ := hsh
+  rw [hq] at hlen hcols
+  have hidx : ∃ idx, indicesSelectedMonthsI o'.cycle o'.cur.time.length months = .ok idx
+      ∧ ∀ t ∈ idx, t < o'.cur.time.length := by
+    rw [hcyc]
+    rcases hc with h | h
+    · rw [h]
+      obtain ⟨idx, h1, _, _, _, h5⟩ := selected_months_12 o'.cur.time.length months hm
+      exact ⟨idx, h1, h5⟩
+    · rw [h]
+      obtain ⟨idx, h1, _, _, _, h5⟩ := selected_months_360 o'.cur.time.length months hm
+      exact ⟨idx, h1, h5⟩
+  obtain ⟨idx, h1, h2⟩ := hidx
+  have h2' : ∀ t ∈ idx, t < (o.run ops).cur.time.length := h2
+  refine ⟨idx, h1, h2, ?_, ?_⟩
+  · have hall : idx.all (· < o'.anomalyFresh.length) = true := by
+      simp only [List.all_eq_true, decide_eq_true_eq]
+      intro t ht
+      have := h2' t ht
+      show t < (o.run ops).anomalyFresh.length
+      omega
+    unfold Obj.anomalySelectedMonths
+    rw [h1]
+    show (selectRows o'.anomalyQ.1 idx) = _
+    rw [show o'.anomalyQ.1 = o'.anomalyFresh from hq]
+    simp only [selectRows, hall, if_true]
+  · intro r hr
+    obtain ⟨t, ht, rfl⟩ := List.mem_map.mp hr
+    apply hcols
+    have : t < (o.run ops).anomalyFresh.length := by have := h2' t ht; omega
+    show (o.run ops).anomalyFresh.getD t [] ∈ (o.run ops).anomalyFresh
+    rw [List.getD, List.getElem?_eq_getElem this]
+    exact List.getElem_mem _
+
+/-! ## 15. The model is built from the expressions of the current source
+
+`Pyunicorn.Generated.ArithC13` is regenerated from `data.py` / `climate_data.py` on
+every run (`translate/arith_C13.json`); the theorems below state that the model uses
+exactly those comparison, index, slice and counter expressions. -/
+
+/-- `time_indices`: the degenerate test and the element-wise comparison of the source -/
+theorem gen_timeMask (w : Win) (time : Vec) :
+    timeMask w time
+      = if ArithC13.timeDegenerate w.tmin w.tmax then List.replicate time.length true
+        else time.map fun x => ArithC13.timeCond x w.tmin w.tmax := by
+  unfold timeMask ArithC13.timeDegenerate
+  by_cases h : w.tmin = w.tmax
+  · simp [h]
+  · simp only [h, if_false, decide_false]
+    apply List.map_congr_left
+    intro x _
+    simp [inRange, ArithC13.timeCond, GE.ge]
+
+/-- `space_indices`: the degenerate test (`or`) and the four comparisons of the source -/
+theorem gen_spaceMask (w : Win) (lat lon : Vec) :
+    spaceMask w lat lon
+      = if ArithC13.spaceDegenerate w.latmin w.latmax w.lonmin w.lonmax
+        then List.replicate lat.length true
+        else List.zipWith (fun la lo =>
+          ArithC13.spaceCond la lo w.latmin w.latmax w.lonmin w.lonmax) lat lon := by
+  unfold spaceMask ArithC13.spaceDegenerate
+  by_cases h : w.latmin = w.latmax ∨ w.lonmin = w.lonmax
+  · simp [h]
+  · simp only [h, if_false, decide_false]
+    congr 1
+    funext la lo
+    simp [inBox, inRange, ArithC13.spaceCond, GE.ge, Bool.and_assoc]
+
+/-- `phase_indices()`: `range_years = int(T / c)` is `⌊T / c⌋`, and the arguments of
+`np.arange` / the assigned row are those of `phaseIndicesLoop` -/
+theorem gen_phaseIndices (T c i : Nat) (hc : 0 < c) :
+    ArithC13.rangeYears (T : Int) (c : Int) = ((T / c : Nat) : Int)
+    ∧ ArithC13.arangeStart (i : Int) = (i : Int)
+    ∧ ArithC13.arangeStop ((T / c : Nat) : Int) (c : Int) = ((T / c * c : Nat) : Int)
+    ∧ ArithC13.arangeStep (c : Int) = (c : Int)
+    ∧ ArithC13.piRow (i : Int) = (i : Int) := by
+  refine ⟨floor_div_nat T c hc, rfl, ?_, rfl, rfl⟩
+  simp [ArithC13.arangeStop]
+
+/-- the strided slices `observable[i::c]`, `anomaly[i::c]` and the row `phase_mean[i]`
+of the source are the `everyNth c i` / `setEveryNth c i` / `set i` of the model -/
+theorem gen_slices (i c : Int) :
+    ArithC13.pmRow i = i ∧ ArithC13.pmSliceStart i = i ∧ ArithC13.pmSliceStep c = c
+    ∧ ArithC13.anReadStart i = i ∧ ArithC13.anReadStep c = c
+    ∧ ArithC13.anWriteStart i = i ∧ ArithC13.anWriteStep c = c :=
+  ⟨rfl, rfl, rfl, rfl, rfl, rfl, rfl⟩
+
+/-- `indices_selected_months`: the dispatch on the cycle length and the day numbers
+`month * 30 + day`, `day ∈ range(30)`, are those of the source -/
+theorem gen_months (c T : Nat) (months : List Int) :
+    indicesSelectedMonthsI c T months
+      = (if ArithC13.cycleIsMonthly (c : Int) then indicesSelectedPhasesI c T months
+         else if ArithC13.cycleIsDaily (c : Int) then
+           indicesSelectedPhasesI c T (months.flatMap fun m =>
+             (List.range ArithC13.daysPerMonth.toNat).map fun (d : Nat) => ArithC13.monthDay m (d : Int))
+         else .notImplemented) := by
+  unfold indicesSelectedMonthsI ArithC13.cycleIsMonthly ArithC13.cycleIsDaily
+  have e1 : ((c : Int) = 12) = (c = 12) := by apply propext; omega
+  have e2 : ((c : Int) = 360) = (c = 360) := by apply propext; omega
+  simp only [e1, e2, decide_eq_true_eq]
+  rw [monthDays_eq]
+  rfl
+
+/-- the cache counter: an accepted `ClimateData.set_window` performs `_mut_window += 1`
+(the second increment of `set_global_window` is redundant and deliberately not tied) -/
+theorem gen_bump (o : Obj) (w : Win) (h : (o.setWindow w).1 = false) :
+    ((o.setWindow w).2.ver : Int) = ArithC13.bumpWindow o.ver := by
+  unfold Obj.setWindow at h ⊢
+  split
+  · rename_i hv; simp [hv] at h
+  · simp [ArithC13.bumpWindow]
+
+/-! ## 16. Rescaling: anomalies and phase means are homogeneous, windows follow the time unit -/
+
+/-- **`anomaly()` is homogeneous**: rescaling the observable by any factor `k` (a change of
+unit, e.g. a power of two) rescales every anomaly by `k` -/
+theorem anomaly_rescale (k : Rat) (c n : Nat) (obs : Mat) (hc : 0 < c) :
+    anomalyOf c n (msmul k obs) = msmul k (anomalyOf c n obs) := by
+  rw [anomalyOf_closed c n _ hc, anomalyOf_closed c n obs hc]
+  apply List.ext_getElem
+  · simp [msmul]
+  · intro t h1 h2
+    simp only [msmul, List.length_map, List.getElem_zipWith, List.getElem_range, List.getElem_map]
+    have := meanRow_smul k c n obs (t % c)
+    simp only [msmul] at this
+    rw [this, vsub_smul]
+
+/-- **`phase_mean()` is homogeneous** (NaN rows stay NaN rows) -/
+theorem phaseMean_rescale (k : Rat) (c n : Nat) (obs : Mat) :
+    phaseMeanLoop c n (msmul k obs) = (phaseMeanLoop c n obs).map (Option.map (smul k)) := by
+  rw [phaseMeanLoop_eq, phaseMeanLoop_eq]
+  simp only [phaseMean, List.map_map]
+  apply List.map_congr_left
+  intro i _
+  have e : everyNth c i (msmul k obs) = msmul k (everyNth c i obs) := everyNth_map _ _ _ _
+  simp only [Function.comp, colMean, e]
+  by_cases he : everyNth c i obs = []
+  · simp [he, msmul]
+  · have he' : msmul k (everyNth c i obs) ≠ [] := by simpa [msmul] using he
+    have h1 : (msmul k (everyNth c i obs)).isEmpty = false := by simpa using he'
+    have h2 : (everyNth c i obs).isEmpty = false := by simpa using he
+    simp only [h1, h2, Bool.false_eq_true, if_false, Option.map_some, Option.some.injEq]
+    rw [colSum_smul]
+    simp only [msmul, smul, List.length_map, List.map_map]
+    apply List.map_congr_left
+    intro x _
+    simp only [Function.comp, Rat.div_def, Rat.mul_assoc]
+
+/-- **the window follows the time unit**: rescaling the time axis and the time bounds by the
+same positive factor selects the same samples (also in the coinciding-bounds convention) -/
+theorem timeMask_rescale (k : Rat) (hk : 0 < k) (w : Win) (time : Vec) :
+    timeMask { w with tmin := k * w.tmin, tmax := k * w.tmax } (time.map (k * ·))
+      = timeMask w time := by
+  have hle : ∀ a b : Rat, k * a ≤ k * b ↔ a ≤ b := fun a b =>
+    ⟨fun h => Rat.le_of_mul_le_mul_left h hk,
+     fun h => Rat.mul_le_mul_of_nonneg_left h (Rat.le_of_lt hk)⟩
+  have hinj : k * w.tmin = k * w.tmax ↔ w.tmin = w.tmax := by
+    constructor
+    · intro h
+      exact Rat.le_antisymm ((hle _ _).mp (by rw [h]; exact Rat.le_refl))
+        ((hle _ _).mp (by rw [h]; exact Rat.le_refl))
+    · intro h; rw [h]
+  unfold timeMask
+  by_cases h : w.tmin = w.tmax
+  · simp [h]
+  · have h' : ¬ k * w.tmin = k * w.tmax := fun x => h (hinj.mp x)
+    simp only [h, h', if_false, List.map_map]
+    apply List.map_congr_left
+    intro x _
+    simp [inRange, hle]
 
 /-! ## 7. Non-vacuity: concrete states satisfying the hypotheses -/
 
@@ -630,6 +1232,41 @@ example : ∃ o, Obj.init exFull 3 false none = some o ∧
     ((o.run [.qAnomaly, .setWindow ⟨1, 5, 0, 5, 1, 3⟩, .qAnomaly, .setWindow ⟨10, 11, 0, 0, 0, 0⟩,
       .evict (fun _ => false), .qPhaseMean]).anomalyQ.1
       = [[-18, -18], [6, -6], [0, 0], [18, 18], [-6, 6]]) := ⟨_, rfl, by decide +kernel⟩
+
+/-- the loops as written -/
+example : phaseIndicesLoop 3 7 = .ok [[0, 3], [1, 4], [2, 5]] := by decide +kernel
+example : phaseIndicesLoop 0 7 = .zeroDivision := by decide +kernel
+example : phaseMeanLoop 3 1 [[4], [6]] = [some [4], some [6], none] := by decide +kernel
+/-- negative phase numbers wrap; numbers outside `[-c, c)` are an `IndexError` -/
+example : indicesSelectedPhasesI 3 7 [-1, 0] = .ok [0, 2, 3, 5] := by decide +kernel
+example : indicesSelectedPhasesI 3 7 [3] = .indexError := by decide +kernel
+example : indicesSelectedPhasesI 3 7 [-4] = .indexError := by decide +kernel
+/-- month → day expansion: month `-1` is December, days 330 … 359 of the one complete year -/
+example : indicesSelectedMonthsI 360 400 [-1]
+    = .ok ((List.range 30).map (· + 330)) := by decide +kernel
+example : indicesSelectedMonthsI 12 25 [1, -12] = .ok [0, 1, 12, 13] := by decide +kernel
+example : indicesSelectedMonthsI 7 25 [1] = .notImplemented := by decide +kernel
+/-- `set_window(window())` on a windowed view keeps the view -/
+example : ∃ o, Obj.init exFull 3 false (some ⟨1, 5, 0, 5, 1, 3⟩) = some o
+    ∧ boundaries o.cur = some [1, 5, 0, 5, 1, 3] ∧ o.setWindowCurrent.2.cur = o.cur :=
+  ⟨_, rfl, by decide +kernel, by decide +kernel⟩
+/-- a shuffled column is a rearrangement -/
+example : shuffledAnomaly [[1, 10], [2, 20], [3, 30]] 2 [[2, 0, 1], [0, 2, 1]]
+    = [[3, 10], [1, 30], [2, 20]] := by decide +kernel
+/-- an object built on the windowed arrays of another -/
+example : ∃ o o', Obj.init exFull 3 false (some ⟨1, 5, 0, 5, 1, 3⟩) = some o
+    ∧ o.nest = some o' ∧ o'.full = o.cur := ⟨_, _, rfl, rfl, rfl⟩
+/-- `anomaly_selected_months` on 26 monthly samples, window dropping the first one -/
+example : ∃ o, Obj.init ⟨(List.range 26).map (fun (t : Nat) => (t : Rat)), [0], [0],
+      (List.range 26).map (fun (t : Nat) => [((t * t : Nat) : Rat)])⟩ 12 false none = some o
+    ∧ ((o.setWindow ⟨1, 25, 0, 0, 0, 0⟩).2.anomalySelectedMonths [0, -1]).1
+        = .ok [[-264], [-216], [-96], [216]] := ⟨_, rfl, by decide +kernel⟩
+
+/-- rescaling by a power of two -/
+example : anomalyOf 3 1 (msmul 1024 [[0], [12], [24], [36], [48], [12], [0]])
+    = msmul 1024 [[-12], [-18], [6], [24], [18], [-6], [-12]] := by decide +kernel
+example : timeMask ⟨8, 40, 0, 0, 0, 0⟩ ([0, 1, 2, 3, 4, 5, 6].map ((8 : Rat) * ·))
+    = [false, true, true, true, true, true, false] := by decide +kernel
 
 /-! ## 8. The pinned code (before the `fix:` commits) violated the property
 
